@@ -28,6 +28,7 @@ type SpecCase struct {
 	OrderPolicies  int          `json:"order_policies,omitempty"`
 	WitnessEvery   int          `json:"witness_every,omitempty"`
 	MaxWitnesses   int          `json:"max_witnesses,omitempty"`
+	MaxSecs        int          `json:"max_secs,omitempty"`
 	What           string       `json:"what,omitempty"`
 }
 
@@ -111,6 +112,13 @@ func Check(cfg Config, prop string) int {
 	var inconcl []string
 	skippedSeen := map[string]bool{}
 	var skipped []string
+	// Fail fast: as soon as a case yields a counterexample that reproduces natively
+	// (and is not an open known finding) the remaining cases are not explored - the
+	// verdict is VIOLATION either way, and a broken tree can make later cases
+	// explode. GOSYM_NO_FAILFAST=1 explores everything.
+	failFast := os.Getenv("GOSYM_NO_FAILFAST") == ""
+	stoppedEarly := false
+cases:
 	for _, sc := range sp.Cases {
 		params := append([][]int64(nil), sc.Quick...)
 		for _, r := range sc.QuickRanges {
@@ -123,7 +131,14 @@ func Check(cfg Config, prop string) int {
 			}
 		}
 		for _, ps := range params {
-			c := Case{Pkg: sc.Pkg, Func: sc.Func, Params: ps, MaxPaths: sc.MaxPaths, MaxSteps: sc.MaxSteps, MaxMapPerm: sc.MaxMapPerm, ByteEnum: sc.ByteEnum, OrderPolicies: sc.OrderPolicies, Reach: sc.Reach, WitnessEvery: sc.WitnessEvery, MaxWitnesses: sc.MaxWitnesses}
+			c := Case{Pkg: sc.Pkg, Func: sc.Func, Params: ps, MaxPaths: sc.MaxPaths, MaxSteps: sc.MaxSteps, MaxMapPerm: sc.MaxMapPerm, ByteEnum: sc.ByteEnum, OrderPolicies: sc.OrderPolicies, Reach: sc.Reach, WitnessEvery: sc.WitnessEvery, MaxWitnesses: sc.MaxWitnesses, MaxSecs: sc.MaxSecs}
+			if c.MaxSecs == 0 {
+				// default wall-clock budget per case: a tree under check can make a case explode
+				c.MaxSecs = 1200
+				if cfg.Tier == "thorough" {
+					c.MaxSecs = 7200
+				}
+			}
 			explicitEvery := c.WitnessEvery != 0
 			if c.WitnessEvery == 0 {
 				if cfg.Tier == "thorough" {
@@ -150,8 +165,23 @@ func Check(cfg Config, prop string) int {
 			for _, m := range rep.Inconclusive {
 				inconcl = append(inconcl, c.String()+": "+m)
 			}
+			if failFast && len(rep.Violations) > 0 {
+				only := *rep
+				only.Witnesses = nil
+				early := s.ReplayCases(s.replayCases([]*CaseReport{&only}))
+				for _, rc := range early.Cases {
+					if _, known := openKF[rc.KF]; rc.Kind != "witness" && rc.Confirmed && !(known && rc.KF != "") {
+						stoppedEarly = true
+					}
+				}
+				if stoppedEarly {
+					fmt.Printf("NOTE: a counterexample of %s reproduced natively; the remaining cases are not explored (GOSYM_NO_FAILFAST=1 explores everything)\n", c.String())
+					break cases
+				}
+			}
 		}
 	}
+	evidenceStoppedEarly = stoppedEarly
 
 	// native replay of every counterexample and of the sampled path witnesses
 	cases := s.replayCases(reports)
@@ -266,6 +296,9 @@ func capWitnesses(cases []*ReplayCase, maxW int) []*ReplayCase {
 	return out
 }
 
+// evidenceStoppedEarly: exploration stopped at the first natively confirmed counterexample.
+var evidenceStoppedEarly bool
+
 // evidenceSkipped: cases of optional white-box harnesses that were left out in this run.
 var evidenceSkipped []string
 
@@ -318,6 +351,9 @@ func writeEvidence(cfg Config, prop string, sp *SpecProp, s *Session, reports []
 	cov["exhaustive"] = len(inconcl) == 0
 	cov["unwinding_complete"] = len(inconcl) == 0
 	cov["inconclusive"] = inconcl
+	if evidenceStoppedEarly {
+		cov["stopped_at_first_confirmed_violation"] = true
+	}
 	if len(evidenceSkipped) > 0 {
 		cov["skipped_optional_cases"] = evidenceSkipped
 	}
